@@ -25,6 +25,9 @@ CLAIMS = {
  "C30": ("commit-protocol path automaton, committed-offset field-role rule, reader retry-once path rule",
          "Decides the immutability facts the per-day snapshot argument needs (committed bytes never rewritten; metadata replaced only by rename of a complete temp file, single writer) and that the reader's reopen recovery retries exactly once. The interleavings themselves are NOT decided.",
          "go/types + go/cfg"),
+ "C09": ("abstract truth-table enumeration of every comparison closure over the order types (lt/eq/gt, length equality) of its compared pairs; syntactic alias tracking for stores through the key; table extraction for connectives, comparator complement, negation normal form and desugaring; dominance of lower/upper guards on the parsed prefix length",
+         "Exhaustive for the finite abstraction of each leaf closure and connective (comparison-only code, so behaviour depends only on the order type): every (attribute, comparator) closure has the comparator's truth table on the attribute's own getter, with IP-family guard, and stores nothing through the key. Does not decide the truth of whole formulas on concrete keys nor the masking arithmetic.",
+         "go/types; the abstraction is sound only for closures whose control flow is comparison-only - any other construct is reported as undecided (fails)"),
  "C23": ("per-path packed-record layout extraction (index/slice/unsafe-cast/copy at cursor+const) with writer/reader table comparison",
          "Decides that every field LocalBuffer.Add stores lies inside the cursor stride, fields are disjoint, and Add/Next agree on offset, width, stride and version flag per role; refusal stores nothing. Exact for the layout clause (the one the defect F11 lived in); FIFO behaviour over operation sequences is not decided.",
          "go/types + go/cfg; gc/amd64 sizes for unsafe casts"),
